@@ -277,6 +277,26 @@ def enumerate_cases(tier, shard=0, nshards=1):
         t = ['call', 'G', [['call', 'F', [['num', str(i + 1)]
                                          for i in range(n)]], ['ref', 'A1']]]
         out.append((t, '=' + R.render(t)))
+    # defined names handed to the parser: a name becomes the reference it
+    # is bound to, a STRING LITERAL spelled like the name stays a string
+    names = {'Rate': 'Sheet9!Q7', 'Block': 'Sheet9!B2:C3', 'x': 'Data!A1'}
+    Q7, BL, DX = (['ref', 'Sheet9!Q7'], ['range', 'Sheet9!B2:C3'],
+                  ['ref', 'Data!A1'])
+    for t, txt in [
+            (['call', 'IF', [['op', '=', ['ref', 'A1'], ['str', 'Rate']], Q7,
+                             ['num', '0']]], '=IF(A1="Rate",Rate,0)'),
+            (['op', '&', ['op', '&', ['str', 'Rate'], ['str', ':']], Q7],
+             '="Rate"&":"&Rate'),
+            (['op', '*', Q7, ['num', '2']], '=Rate*2'),
+            (['op', '+', ['call', 'SUM', [BL]], ['call', 'LEN', [
+                ['str', 'Block']]]], '=SUM(Block)+LEN("Block")'),
+            (['op', '&', ['str', 'x'], DX], '="x"&x'),
+            (['call', 'IF', [['op', '=', Q7, ['num', '1']], ['str', 'Rate'],
+                             ['str', 'rate']]], '=IF(Rate=1,"Rate","rate")'),
+            (['op', '+', Q7, ['call', 'SUM', [BL, DX, ['str', 'Block']]]],
+             '=Rate+SUM(Block,x,"Block")')]:
+        if shard == 0:
+            yield {'tree': t, 'text': txt, 'names': names}
     # small scope, complete: EVERY sequence of 2 and of 3 binary operators
     # between plain operands, without parentheses (1 872 formulas whose token
     # kinds coincide while their trees differ), with two operand layouts;
@@ -477,7 +497,8 @@ def judge(case):
     res.labels = tuple(feats[:3]) or ('general',)
     feat = feats[0] if feats else 'general'
     try:
-        ast = _parser.FormulaParser().parse(text, {})
+        ast = _parser.FormulaParser().parse(text, dict(case.get('names')
+                                                      or {}))
     except Exception as err:  # noqa: BLE001
         t = exc_tag(err)
         res.fail('parse-exception:%s:%s:%s' % (t[1], t[2], feat), want, t,
